@@ -186,7 +186,7 @@ class Prop(BaseProp):
             log = self.world.log
             sites = tuple(sorted(set((e[5], e[3]) for e in log)))
             keys.add(derive(case["pattern"], sites) & 0xFFFFFFFFFFFF)
-            digests.append(fast_digest([log, oc, None if neg else s]))
+            digests.append(fast_digest([log, None if neg else oc, None if neg else s]))   # negated classes: KF-C17-1 makes value and verdict hash-seed dependent
             if not sample:
                 sample.update({"pattern": case["pattern"], "max_repeat": case["max_repeat"],
                                "letters": case["letters"], "route": case["route"],
@@ -239,7 +239,7 @@ class Prop(BaseProp):
         if oc.startswith("ok"):
             return None
         neg = "class_neg" in fs
-        v = self._mk(case, sched, oc, detail, s, fast_digest([self.world.log, oc, None if neg else s]))
+        v = self._mk(case, sched, oc, detail, s, fast_digest([self.world.log, None if neg else oc, None if neg else s]))
         if sig_id is not None and v["sig_id"] != sig_id:
             return None
         if getattr(self, "_kf_target", "__any__") != "__any__" and v["kf"] != self._kf_target:
